@@ -832,10 +832,80 @@ func HarnessC08StructValues() {
 	nn := verifrt.Int64()
 	var r any
 	var toErr error
-	p := c08Catch(func() { r, toErr = conv.To(NewMap(map[string]Object{"N": NewInt(nn), "S": NewString("s"), "Other": NewInt(1)})) })
+	p := c08Catch(func() {
+		r, toErr = conv.To(NewMap(map[string]Object{"N": NewInt(nn), "S": NewString("s"), "Other": NewInt(1)}))
+	})
 	verifrt.Assert(!p, "map-to-struct-never-panics")
 	if !p && toErr == nil {
 		ip, isIP := r.(*c08Inner)
 		verifrt.Assert(isIP && ip != nil && int64(ip.N) == nn && ip.S == "s", "map-to-struct-sets-the-named-fields")
 	}
+}
+
+type c08Sized struct {
+	I8  int8
+	I16 int16
+	I32 int32
+	I64 int64
+	I   int
+	U8  uint8
+	U16 uint16
+	U32 uint32
+	U64 uint64
+	U   uint
+	F32 float32
+}
+
+// HarnessC08SizedFieldsWriteReadBack: an int written from the script to a
+// field of any sized integer kind reads back (from the script and from Go) as
+// the value written, or the write is rejected.
+func HarnessC08SizedFieldsWriteReadBack() {
+	st := &c08Sized{}
+	conv, err := NewTypeConverter(reflect.TypeOf(st))
+	if err != nil {
+		return
+	}
+	obj, err := conv.From(st)
+	px, ok := obj.(*Proxy)
+	if err != nil || !ok {
+		return
+	}
+	names := []string{"I8", "I16", "I32", "I64", "I", "U8", "U16", "U32", "U64", "U"}
+	k := verifrt.Choose(len(names))
+	x := verifrt.Int64()
+	var serr error
+	p := c08Catch(func() { serr = px.SetAttr(names[k], NewInt(x)) })
+	verifrt.Assert(!p, "sized-field-write-never-panics")
+	if p || serr != nil {
+		return
+	}
+	verifrt.Reach("written")
+	rb, _ := px.GetAttr(names[k])
+	rv, okR := c08IntContent(rb)
+	verifrt.Assert(okR && rv == x, "sized-field-reads-back-as-written-or-is-rejected:"+names[k])
+	var goSees int64
+	var fits bool
+	switch k {
+	case 0:
+		goSees, fits = int64(st.I8), true
+	case 1:
+		goSees, fits = int64(st.I16), true
+	case 2:
+		goSees, fits = int64(st.I32), true
+	case 3:
+		goSees, fits = st.I64, true
+	case 4:
+		goSees, fits = int64(st.I), true
+	case 5:
+		goSees, fits = int64(st.U8), true
+	case 6:
+		goSees, fits = int64(st.U16), true
+	case 7:
+		goSees, fits = int64(st.U32), true
+	case 8:
+		goSees, fits = int64(st.U64), st.U64 <= 1<<63-1
+	case 9:
+		goSees, fits = int64(st.U), uint64(st.U) <= 1<<63-1
+	}
+	verifrt.Assert(fits && goSees == x, "go-sees-the-value-written-to-a-sized-field:"+names[k])
 }
